@@ -387,6 +387,10 @@ def book_own(repo: Repo) -> List[Ob]:
                     obs.append(skip("BOOK-own", fi, "index-write", P, n, "index written by a helper outside the action methods"))
                 else:
                     obs.append(bad("BOOK-own", fi, "index-write", P, n, f"`{src(n)}` is written outside the designated bookkeeping functions"))
-    if n_reg < 8 or n_idx < 10:
-        raise AnalysisError(f"BOOK-own: {n_reg} registry accesses / {n_idx} index writes (floors 8/10)")
+    # non-vacuity: the registry exists and is both written and read by key (how many methods go through an accessor instead of the raw
+    # registry is the author's choice), and the index writers were found
+    n_store = sum(1 for o in obs if o.key.startswith("registry-store:"))
+    n_load = sum(1 for o in obs if o.key.startswith("registry-key:"))
+    if n_store < 1 or n_load < 1 or n_idx < 10:
+        raise AnalysisError(f"BOOK-own: {n_store} registry stores, {n_load} keyed reads / {n_idx} index writes (floors 1/1/10)")
     return obs
